@@ -327,7 +327,23 @@ func hintsCase(c *Case, lean *LeanDriver) Verdict {
 	if plan, err := c.Preprocess(); err == nil {
 		planStr = safeSexpr(plan)
 	}
-	if !strings.Contains(planStr, "(si (agg") && strings.Join(es, "\n") != strings.Join(ps, "\n") {
+	same := strings.Join(es, "\n") == strings.Join(ps, "\n")
+	if ref.Kind == "err" {
+		// a query that fails while it runs (topk(1e30, ..)) stops before every operand has loaded
+		// its series; the reference engine issues all selects before it evaluates anything. What
+		// the engine did issue must still be what the reference issues for those selectors.
+		same = true
+		pm := map[string]bool{}
+		for _, k := range ps {
+			pm[k] = true
+		}
+		for _, k := range es {
+			if !pm[k] {
+				same = false
+			}
+		}
+	}
+	if !strings.Contains(planStr, "(si (agg") && !same {
 		v.Other = fmt.Sprintf("selects differ: engine %v vs reference %v", es, ps)
 		return v
 	}
@@ -424,8 +440,18 @@ func distCase(c *Case, lean *LeanDriver) Verdict {
 	// as in the repository's own tests, the local queryable of the distributed engine is the union
 	dist := c.Exec(ctx, de, NewMemStorage(c.Data()))
 	if notNative(dist) {
-		v.Skipped = "not-native-distributed"
-		return v
+		// the coordinating engine cannot run the rewritten plan itself (e.g. hour(), which is not
+		// distributed and not supported natively): as deployed, it hands the query to its fallback
+		deFb := engine.NewDistributedEngine(engine.Opts{
+			EngineOpts: promql.EngineOpts{Timeout: time.Hour, MaxSamples: 50000000,
+				LookbackDelta: time.Duration(c.Lookback) * time.Millisecond, EnableAtModifier: true, EnableNegativeOffset: true},
+		}, api.NewStaticEndpoints(engines))
+		dist = c.Exec(ctx, deFb, NewMemStorage(c.Data()))
+		v.Features = append(v.Features, "coordinator-fallback")
+		if dist.Kind == "err" && central.Kind != "err" {
+			v.Skipped = "not-native-distributed"
+			return v
+		}
 	}
 	if df := Diff(dist, central); df != "" {
 		v.Other = fmt.Sprintf("distributed (%d partitions) vs central: %s", len(parts), df)
